@@ -206,8 +206,8 @@ def c03e(prog, R):
     r.floor(9)
 
 
-def c03f(prog, R):
-    r = R.rule("C03.f", "both scan directions apply both bounds to every fresh reader", "K,P")
+def c03f(prog, R, rid="C03.f"):
+    r = R.rule(rid, "both scan directions apply both bounds to every fresh reader", "K,P")
     for name in ("<table::iter::Iter as std::iter::Iterator>::next", "<table::iter::Iter as std::iter::DoubleEndedIterator>::next_back"):
         h = prog.hir.get(name)
         if not h:
@@ -215,7 +215,15 @@ def c03f(prog, R):
             continue
         lo = hir_sites(h["body"], lambda n: n.get("k") == "mcall" and n.get("m") == "seek_lower_bound")
         hi = hir_sites(h["body"], lambda n: n.get("k") == "mcall" and n.get("m") == "seek_upper_bound")
-        ok = len(lo) == 1 and len(hi) == 1 and any("&self.range.0" in g for g in lo[0].guard_texts()) and any("&self.range.1" in g for g in hi[0].guard_texts())
+        # the only condition (beyond those under which the reader itself is created) is "this bound exists": any further
+        # condition (first block only, index type, ...) leaves some fresh reader unclamped
+        cr = hir_sites(h["body"], lambda n: n.get("k") == "call" and (n.get("p") or "").endswith("create_data_block_reader"))
+        cg = cr[0].guard_texts() if len(cr) == 1 else None
+
+        def only(site, fld):
+            extra = [g for g in site.guard_texts() if g not in (cg or [])]
+            return len(extra) == 1 and extra[0].startswith("let ") and extra[0].endswith("= &self.range.%s" % fld)
+        ok = cg is not None and len(lo) == 1 and len(hi) == 1 and only(lo[0], "0") and only(hi[0], "1")
         r.check(ok, "%s|fresh data-block reader gets seek_lower_bound(range.0) and seek_upper_bound(range.1)" % name,
                 "a freshly loaded data block is not clamped on both sides in this direction: items outside the range are yielded "
                 "when next and next_back are mixed", "", "%d lower / %d upper" % (len(lo), len(hi)))
